@@ -86,7 +86,8 @@ def gen_case(run_seed: int, tier: str) -> dict:
                     "f": r.randrange(64)})
     knobs = {
         "search_algorithm.chromosome_length": k.choice([6, 12, 48]),
-        "search_algorithm.test_delete_probability": k.choice([1 / 3, 1.0]),
+        "search_algorithm.test_delete_probability": k.choice([1 / 3, 1.0, 0.0]),
+        "search_algorithm.statement_insertion_probability": k.choice([0.5, 0.9, 0.9]),
         "search_algorithm.test_change_probability": k.choice([1 / 3, 0.0]),
         "search_algorithm.test_insert_probability": k.choice([1 / 3, 0.0, 1.0]),
         "search_algorithm.test_insertion_probability": k.choice([0.1, 0.6]),
@@ -302,6 +303,8 @@ def run_case(case: dict) -> dict:
                         query(inner, "fitness_for", op["f"], False, n)
                     if violation is None and inner.get_fitness_functions():
                         query(inner, "is_covered", op["f"] + 1, False, n)
+                    if violation is None and inner.get_coverage_functions():
+                        query(inner, "coverage" if op["f"] % 2 else "coverage_for", op["f"], False, n)
             elif name.startswith("s_q_"):
                 if s.size() > 0:
                     query(s, name[4:], op["f"], True, n)
